@@ -19,7 +19,7 @@ VERIF = Path(__file__).resolve().parent.parent
 REPO = Path(os.environ.get("VERIF_REPO", "/repo"))
 HARNESS = VERIF / "harness"
 SPEC = VERIF / "spec"
-EVIDENCE = VERIF / "evidence"
+EVIDENCE = Path(os.environ.get("VERIF_EVIDENCE_DIR") or (VERIF / "evidence"))   # seeded runs write elsewhere
 REPLAYS = VERIF / "replays"
 WORK = VERIF / "work"          # scratch (git-ignored); never /tmp
 PUPPET_BUILD = VERIF / "puppets" / "build"
